@@ -372,6 +372,10 @@ def diagrams(draw, shared_tokens=False):
         # tag the end tag - it stays text outside the tags
         pre = "The diagram begins after @startuml below.\n" + pre
     if drop is None and draw(st.integers(0, 5)) == 0:
+        # prose in front of the diagram that mentions the end tag, or both tags in their order (round 9): still text outside
+        pre = draw(st.sampled_from(["Every diagram is closed by an @enduml line.\n", "A diagram stands between @startuml and @enduml, like the one below.\n",
+                                    "@enduml\n"])) + pre
+    if drop is None and draw(st.integers(0, 5)) == 0:
         post = post + "old draft:\n[ghost] --> [ghost9]\ncomponent ghost7\n(closed by the @enduml tag)\n"
     out = {"components": comps, "arrows": arrows, "order": order, "pre": pre, "post": post, "drop": drop}
     if draw(st.integers(0, 5)) == 0:
